@@ -27,7 +27,8 @@ from pybufrkit.descriptors import (ElementDescriptor,
                                    SequenceDescriptor,
                                    AssociatedDescriptor,
                                    MarkerDescriptor,
-                                   SkippedLocalDescriptor)
+                                   SkippedLocalDescriptor,
+                                   UndefinedElementDescriptor)
 
 # Bitmap definition stage
 BITMAP_NA = 0  # e.g. not in a bitmap definition block
@@ -444,6 +445,11 @@ class Coder(object):
         :type bit_operator:
         :type descriptor: ElementDescriptor
         """
+        # A delayed replication factor that is not in the tables gets here directly
+        if isinstance(descriptor, UndefinedElementDescriptor):
+            raise UnknownDescriptor('Cannot process descriptor {} of type: {}'.format(
+                descriptor, type(descriptor).__name__))
+
         X = descriptor.X
 
         # Read associated field if exists
